@@ -804,8 +804,16 @@ class Exec:
                 ln = base.ty.f_len(base.t)
                 self.safety(st, z3.And(0 <= i, i < ln), f'del of an index in range at line {t.lineno}', t)
                 o = self.ops(st)
+                t0 = base.t
                 base.t = o.concat(base.ty, o.slice(base.ty, base.t, z3.IntVal(0), i),
                                   o.slice(base.ty, base.t, i + 1, ln))
+                # consequence of the pointwise concat/slice facts, stated from the end of the list (usable by
+                # E-matching in both directions): the elements behind i keep their distance from the end
+                atend_define(st, base.ty)
+                f, d = atend_fn(base.ty), z3.Int(sym.fresh_name('d'))
+                st.facts.add(base.ty.f_len(base.t) == ln - 1)
+                st.facts.add(z3.ForAll([d], z3.Implies(z3.And(0 <= d, d < ln - 1 - i), f(base.t, d) == f(t0, d)),
+                                       patterns=[f(base.t, d), f(t0, d)]))
                 return
         raise OutOfSubset(f'del of {type(t).__name__} at line {t.lineno}')
 
@@ -2390,6 +2398,31 @@ def _b_rev(ex, st, args, kwargs, n, spec):
     return Val(s.ty, ex.ops(st).rev(s.ty, s.t))
 
 
+def atend_fn(ty):
+    return ty._fn('atend', ty.sort(), z3.IntSort(), ty.elem.sort())
+
+
+def atend_define(st, ty):
+    """atend(s, d) := s[len(s) - 1 - d] -- element at distance d from the END of s (a deletion in front of an
+    element does not change its distance from the end); definitional axiom, once per state and type"""
+    key = 'atend:' + ty.key()
+    if st.mon.get(key):
+        return
+    st.mon[key] = True
+    s_ = z3.Const(sym.fresh_name('s'), ty.sort())
+    d = z3.Int(sym.fresh_name('d'))
+    f = atend_fn(ty)
+    st.facts.add(z3.ForAll([s_, d], f(s_, d) == ty.f_at(s_, ty.f_len(s_) - 1 - d), patterns=[f(s_, d)]))
+
+
+def _b_atend(ex, st, args, kwargs, n, spec):
+    s = ex.as_seq(args[0], st)
+    if s is None:
+        raise OutOfSubset('atend of a non-sequence')
+    atend_define(st, s.ty)
+    return ex.wrap(s.ty.elem, atend_fn(s.ty)(s.t, ex.to_term(args[1], TInt, st)), st)
+
+
 def _b_implies(ex, st, args, kwargs, n, spec):
     return Val(TBool, z3.Implies(ex.truthy(args[0], st), ex.truthy(args[1], st)))
 
@@ -2465,5 +2498,5 @@ BUILTINS = {
     'reversed': _b_reversed, 'list': _b_list, 'tuple': _b_tuple, 'max': _b_minmax(True),
     'min': _b_minmax(False), 'set': _b_set, 'isinstance': _b_isinstance, 'implies': _b_implies,
     'sorted': _b_sorted, 'abs': _b_abs, 'int': _b_int, 'float': _b_float, 'bool': _b_bool, 'sum': _b_sum,
-    'all': None, 'any': None, 'old': None, 'rev': _b_rev, 'val': _b_val,
+    'all': None, 'any': None, 'old': None, 'rev': _b_rev, 'val': _b_val, 'atend': _b_atend,
 }
